@@ -245,7 +245,16 @@ fn cmd_rbsp(args: &[&str], out: &mut Vec<String>) {
     match &src {
         Src::Raw(b) => run_rbsp_ops(mk_byte_reader(&b[..], skip, max_fill), ops, out),
         // header skipped and default window: through the accessor users call, Nal::rbsp_bytes()
-        Src::Nal { .. } if skip == 1 && max_fill == 0 => src.with_nal(|nal| run_rbsp_ops(nal.rbsp_bytes(), ops, out)),
+        Src::Nal { .. } if skip == 1 && max_fill == 0 => {
+            src.with_nal(|nal| run_rbsp_ops(nal.rbsp_bytes(), ops, out));
+            // the whole payload once without and once with a transient Interrupted before every refill of the underlying
+            // reader, retried: the same bytes and the same end
+            let plain = src.with_nal(|nal| drain_retrying(nal.rbsp_bytes()));
+            let flaky = src.with_nal(|nal| drain_retrying(ByteReader::skipping_h264_header(Flaky::new(nal.reader()))));
+            if plain != flaky {
+                out.push(format!("flaky=DIFF({}!{})", hex(&flaky.0), flaky.1));
+            }
+        }
         Src::Nal { .. } => src.with_nal(|nal| run_rbsp_ops(mk_byte_reader(nal.reader(), skip, max_fill), ops, out)),
     }
 }
